@@ -204,13 +204,14 @@ class Edits:
         self.ed = []  # (s, e, order, text, origin)
         self._n = 0
 
-    def replace(self, s, e, text, origin):
+    def replace(self, s, e, text, origin, prio=0):
         assert self.s <= s <= e <= self.e, (self.s, s, e, self.e)
         self._n += 1
-        self.ed.append((s, e, self._n, text, origin))
+        self.ed.append((s, e, self._n + prio * 1000000, text, origin))
 
-    def insert(self, at, text, origin):
-        self.replace(at, at, text, origin)
+    def insert(self, at, text, origin, prio=0):
+        """prio < 0: before other insertions at the same offset (statement-level anchors go before expression rewrites)"""
+        self.replace(at, at, text, origin, prio)
 
     def delete(self, s, e, origin="drop"):
         self.replace(s, e, "", origin)
@@ -431,6 +432,8 @@ class Unit:
             elif name == "letty":
                 a, b = full.split(":", 1)
                 item["letty"][a.strip()] = b.strip()
+            elif name == "strvar":
+                item.setdefault("strvars", []).extend(full.split())
             elif name == "binop":
                 # @binop == => helper : every `A == B` of the function becomes helper(A, B)
                 a, b = [x.strip() for x in full.split("=>")]
@@ -547,8 +550,10 @@ class Gen:
             if n["k"] == "FieldDef" and "vis" not in n["a"] and n["p"]["k"] == "StructDef":
                 # private fields: make visible to spec functions in the same file (no semantic effect)
                 ed.insert(n["s"] if not kids(n, kind="Attr") else kids(n, kind="Attr")[-1]["e"], " pub ", ("rule", "vis"))
-        if it["kind"] == "const":
-            pass
+        first_tok = max([a["e"] for a in kids(node, kind="Attr")] + [node["s"]])
+        mvis = re.match(rb"\s*pub\s*\([^)]*\)", src.bytes[first_tok:first_tok + 40])
+        if mvis:
+            ed.replace(first_tok, first_tok + mvis.end(), " pub", ("rule", "vis"))
         if derive:
             self.emit("#[derive(" + derive[0] + ")]\n", ("rule", "R13-derive"))
             self.fired("R13-derive")
@@ -916,6 +921,25 @@ class Gen:
                         ed.insert(b["s"], t, o)
                     ed.insert(b["s"] + 1, f" let {x_pat} = &{S}[{i_pat}];", ("rule", "R1"))
                     self.fired("R1")
+                elif itx["k"] == "MethodCall" and p["k"] == "PatTuple" and len(kids(p, "elem")) == 2 and (
+                        (itx["a"]["method"] == "enumerate" and kid(itx, "receiver")["k"] == "MethodCall" and kid(itx, "receiver")["a"]["method"] == "chars")
+                        or itx["a"]["method"] == "char_indices"):
+                    # R30: index = char count (enumerate) or byte offset (char_indices); body must not `continue`
+                    if any(x["k"] == "Continue" for x in walk(b)):
+                        raise Inconclusive(f"unsupported construct: `continue` inside a chars() for-loop at {src.rel}:{src.line_of(n['s'])}")
+                    byte_idx = itx["a"]["method"] == "char_indices"
+                    S = T(kid(kid(itx, "receiver"), "receiver")) if not byte_idx else T(kid(itx, "receiver"))
+                    i_pat, c_pat = [T(e) for e in kids(p, "elem")]
+                    ed.replace(n["s"], b["s"], f"let mut __chars = {S}.chars(); let mut {i_pat}: usize = 0; let ghost mut __seen: Seq<char> = Seq::empty();\n"
+                               f"        while let Some({c_pat}) = __chars.next()", ("rule", "R30"))
+                    for t, o in pieces:
+                        ed.insert(b["s"], t, o)
+                    ed.insert(b["s"] + 1, f" let ghost __seen0 = __seen; proof {{ lemma_head_skip(); __seen = __seen.push({c_pat}); assert(__seen.drop_last() =~= __seen0); }} /*@@loop{idx}:begin@@*/",
+                              ("rule", "R30"))
+                    inc = f"__char_len_utf8({c_pat})" if byte_idx else "1"
+                    ed.insert(b["e"] - 1, f" {i_pat} += {inc}; ", ("rule", "R30"))
+                    loops[idx] = (n, "chars_index")
+                    self.fired("R30")
                 elif itx["k"] == "Range" or (itx["k"] == "Paren" and kid(itx, "expr")["k"] == "Range"):
                     for t, o in pieces:
                         ed.insert(b["s"], t, o)
@@ -981,6 +1005,17 @@ class Gen:
                     ed.replace(E["e"], n["e"], " { Ok(__v) => __v, Err(_) => return Err(anyhow::__opaque_error()) })", ("rule", "R24"))
                     dead.append((E["e"], n["e"]))
                     self.fired("R24")
+        # R31: `E?` in a function returning Option (sidecar option `try=option`)  ->  match E { Some(v) => v, None => return None }
+        if "try=option" in it["opts"]:
+            for n in walk(body):
+                if n["k"] == "Try" and not any(a0 <= n["s"] and n["e"] <= b0 for a0, b0 in dead):
+                    E = kid(n, "expr")
+                    if E["k"] == "MethodCall" and E["a"]["method"] in ("ok_or_else", "with_context", "context", "map_err"):
+                        continue
+                    ed.insert(n["s"], "(match ", ("rule", "R31"))
+                    ed.replace(E["e"], n["e"], " { Some(__v) => __v, None => return None })", ("rule", "R31"))
+                    self.fired("R31")
+
         # R8: error-message construction and logging are outside every property
         for n in walk(body):
             if any(a0 <= n["s"] and n["e"] <= b0 for a0, b0 in dead):
@@ -1105,11 +1140,15 @@ class Gen:
         #      string LITERAL argument they become calls of prelude helpers with exact specs over Seq<char>
         for n in walk(body):
             if n["k"] == "MethodCall" and n["a"]["method"] in ("starts_with", "ends_with", "strip_prefix", "strip_suffix", "contains") \
-                    and len(kids(n, "arg")) == 1 and kids(n, "arg")[0]["k"] == "Lit":
+                    and len(kids(n, "arg")) == 1 and (kids(n, "arg")[0]["k"] == "Lit"
+                        or (kids(n, "arg")[0]["k"] == "Path" and kids(n, "arg")[0]["a"]["path"] in it.get("strvars", []))):
                 if any(a0 <= n["s"] and n["e"] <= b0 for a0, b0 in dead):
                     continue
                 lit = kids(n, "arg")[0]
-                kind = "char" if lit["a"]["lit"].startswith("'") else ("str" if lit["a"]["lit"].startswith('"') else None)
+                if lit["k"] == "Path":
+                    kind = "str"
+                else:
+                    kind = "char" if lit["a"]["lit"].startswith("'") else ("str" if lit["a"]["lit"].startswith('"') else None)
                 if kind is None:
                     continue
                 X = kid(n, "receiver")
@@ -1160,6 +1199,28 @@ class Gen:
                 pend.append((ptxt, ("src", src.rel, P["s"])))
                 pend.append((f" {{ proof {{ assert(__s@[__seen.len() - 1] == {cvar}); }} return true; }}\n    }}\n    proof {{ assert(__seen =~= __s@); }}\n    false\n}}\n", ("rule", "R6c")))
                 self._pending.extend(pend)
+
+        # R27: `&S[A..B]`, `&S[A..]`, `S[A..B]` on a variable declared `@strvar` -> __str_slice(S, A, B): the helper's
+        #      precondition is exactly Rust's panic condition (range order, both ends on char boundaries)
+        for n in walk(body):
+            if n["k"] == "Index" and kid(n, "base")["k"] == "Path" and kid(n, "base")["a"]["path"] in it.get("strvars", []) \
+                    and kid(n, "index")["k"] == "Range" and kid(n, "index")["a"]["limits"] == "..":
+                if any(a0 <= n["s"] and n["e"] <= b0 for a0, b0 in dead):
+                    continue
+                S = kid(n, "base")["a"]["path"]
+                rng = kid(n, "index")
+                A, B = kid(rng, "start"), kid(rng, "end")
+                outer = n["p"] if n["p"]["k"] == "Reference" else n
+                if A is not None and B is not None:
+                    ed.replace(outer["s"], A["s"], f"__str_slice({S}, ", ("rule", "R27"))
+                    ed.replace(A["e"], B["s"], ", ", ("rule", "R27"))
+                    ed.replace(B["e"], outer["e"], ")", ("rule", "R27"))
+                elif A is not None:
+                    ed.replace(outer["s"], A["s"], f"__str_slice_from({S}, ", ("rule", "R27"))
+                    ed.replace(A["e"], outer["e"], ")", ("rule", "R27"))
+                else:
+                    raise Inconclusive(f"unsupported construct: str range at {src.rel}:{src.line_of(n['s'])}")
+                self.fired("R27")
 
         # R15: X.clone().or_else(|| Y.clone())  ->  __clone_or_else(&X, &Y)   (X, Y verbatim)
         # R14: V.extend(E)                       ->  __vec_extend(&mut V, E)
@@ -1301,9 +1362,15 @@ class Gen:
         # R19: comparison operators whose operand types Verus has no usable spec for -> trusted helper (operands verbatim)
         for op, helper in it.get("binops", []):
             hit = 0
+            want_lhs = None
+            mm = re.match(r"^(\S+?)\[(.*)\]$", op)
+            if mm:
+                op, want_lhs = mm.group(1), norm(mm.group(2))
             for n in walk(body):
                 if n["k"] == "Binary" and n["a"]["op"] == op:
                     A, B = kid(n, "left"), kid(n, "right")
+                    if want_lhs is not None and norm(T(A)) != want_lhs:
+                        continue
                     ed.replace(n["s"], A["s"], helper + "(", ("rule", "R19"))
                     ed.replace(A["e"], B["s"], ", ", ("rule", "R19"))
                     ed.replace(B["e"], n["e"], ")", ("rule", "R19"))
@@ -1315,11 +1382,15 @@ class Gen:
         for meth, func in it["callmap"]:
             hit = 0
             want_rc = None
+            nargs = 0
+            mm = re.match(r"^(\w+)/(\d+)$", meth)
+            if mm:
+                meth, nargs = mm.group(1), int(mm.group(2))
             mm = re.match(r"^(\w+)\[(.*)\]$", meth)
             if mm:
                 meth, want_rc = mm.group(1), norm(mm.group(2))
             for n in walk(body):
-                if n["k"] == "MethodCall" and n["a"]["method"] == meth and not kids(n, "arg"):
+                if n["k"] == "MethodCall" and n["a"]["method"] == meth and len(kids(n, "arg")) == nargs:
                     rc = kid(n, "receiver")
                     if want_rc is not None and norm(T(rc)) != want_rc:
                         continue
@@ -1327,7 +1398,11 @@ class Gen:
                         hit += 1  # consumed by another rule that re-applies the call map itself
                         continue
                     ed.insert(n["s"], func + "(", ("rule", "R11"))
-                    ed.replace(rc["e"], n["e"], ")", ("rule", "R11"))
+                    if nargs == 0:
+                        ed.replace(rc["e"], n["e"], ")", ("rule", "R11"))
+                    else:
+                        a0 = kids(n, "arg")[0]
+                        ed.replace(rc["e"], a0["s"], ", ", ("rule", "R11"))
                     hit += 1
                     self.fired("R11")
             if not hit:
@@ -1379,6 +1454,10 @@ class Gen:
                 ed.insert(te["e"], ";\n" + cl.text + "\n__r", ("clause", cl.id))
                 continue
             pos = self.resolve_anchor(it, src, body, loops, anchor)
+            if anchor.strip() == "end":
+                # a `let` keeps a following tail expression that starts with `(` from being parsed as a call of the proof block
+                ed.insert(pos, "\n" + cl.text + "\nlet __end_anchor = ();\n", ("clause", cl.id), prio=-1)
+                continue
             if isinstance(pos, tuple):
                 self._placeholders.setdefault(pos[1], []).append(("\n" + cl.text + "\n", ("clause", cl.id)))
                 continue
@@ -1399,7 +1478,7 @@ class Gen:
                 raise Inconclusive(f"lost anchor: {it['name']} loop {idx}")
             n, kind = loops[idx]
             if w[2] == "begin":
-                if kind == "chars_map_join":
+                if kind in ("chars_map_join", "chars_index"):
                     return ("placeholder", f"/*@@loop{idx}:begin@@*/")
                 b = kid(n, "body")
                 if b is None:
